@@ -192,7 +192,11 @@ CO_ERR COSdoResponse(CO_SDO *srv)
     } else if ((cmd & 0xE3) == 0xA0) {
         result = COSdoInitUploadBlock(srv);
     } else if (cmd == 0xA3) {
-        result = COSdoUploadBlock(srv);
+        if (srv->Obj == 0) {
+            COSdoAbort(srv, CO_SDO_ERR_CMD);
+        } else {
+            result = COSdoUploadBlock(srv);
+        }
 
     /* invalid or unknown command */
     } else {
